@@ -34,7 +34,7 @@ CHECKS['C15'] = {
     'technique': 'randomized end-to-end fault injection with an event-recording monitor; scenario JSON + event history + dispatcher log are the replay artifact (replayed up to 5 times)',
     'units': [
         unit('live', 'dispatchcloud_c14', '^TestVerifC15Liveness$',
-             {'shards': 10, 'timeout': 500, 'env': {'VERIF_SCENARIOS': 2, 'VERIF_MAXN': 120}},
+             {'shards': 16, 'timeout': 500, 'env': {'VERIF_SCENARIOS': 4, 'VERIF_MAXN': 120}},
              {'shards': 16, 'timeout': 1700, 'env': {'VERIF_SCENARIOS': 30, 'VERIF_MAXN': 500, 'VERIF_SLOWQUOTA': 1, 'VERIF_DCAP_S': 300}},
              rapid=False, crash_is_violation=True, tolerate_infra=2),
     ],
